@@ -17,8 +17,9 @@
           seg.cpu is a sequence indexed by the container's cpu count; seg.fixed = -1 means "grows"
    s    = [ost, pools, ctr, results, crash]
    o    = <<p, i>>   operator i of pipeline p
-   h    = [oom |-> set of container ids]  float-band hints (trace validation only; {} in models):
-          a quantity EXACTLY on a limit may fall on either side (C05), the observation decides.  *)
+   h    = [own |-> set of cids, pool |-> set of cids, slen |-> set of <<cid, ticks>>]
+          float-band hints (trace validation only; empty in models): a quantity EXACTLY on a limit
+          or tick boundary may fall on either side (C05, C10); there, and only there, the observation decides. *)
 EXTENDS Integers, Sequences, FiniteSets, TLC, BigNat
 
 Table == [pending    |-> {"assigned"},
@@ -35,7 +36,7 @@ RECURSIVE SumSeq(_)
 SumSeq(q) == IF q = <<>> THEN 0 ELSE Head(q) + SumSeq(Tail(q))
 Range(q) == {q[i] : i \in 1..Len(q)}
 RemoveOne(q, x) == LET i == CHOOSE j \in 1..Len(q) : q[j] = x IN SubSeq(q, 1, i-1) \o SubSeq(q, i+1, Len(q))
-NoHints == [oom |-> {}]
+NoHints == [own |-> {}, pool |-> {}, slen |-> {}]
 EmptyKlog == [U |-> 0, cons |-> 0, own |-> {}, cands |-> <<>>, victims |-> {}]
 
 (* ---------------------------------------------------------------------------------- *)
@@ -120,7 +121,7 @@ Advance(cfg, wl, s, cid, h) ==
          mem == MemOf(cfg, wl, o, k, i, c.cpu)
          tot == SegTotal(cfg, wl, o, k, c.cpu)
          s2  == [SetMem(s1, cid, mem) EXCEPT !.ctr[cid].seg = k, !.ctr[cid].i = i, !.ctr[cid].ticks = @ + 1]
-         over == mem > c.ram \/ (mem = c.ram /\ Banded(cfg, wl, o, k, i, c.cpu) /\ cid \in h.oom)
+         over == mem > c.ram \/ (mem = c.ram /\ Banded(cfg, wl, o, k, i, c.cpu) /\ cid \in h.own)
      IN IF over THEN s2                                    \* frozen: no progress, `can` untouched; E5 kills it
         ELSE IF i = tot - 1 /\ k = LastBusySeg(cfg, wl, o, c.cpu)
              THEN LET s3  == Trans(wl, s2, o, "completed")
@@ -143,14 +144,18 @@ Kill(wl, s, cid) ==
 \* suspension = writing the allocation to disk at 20 GB/s: floor(ram/20 * tps) ticks, at least one (C10)
 SuspTicks(cfg, ram) ==
   LET t == (ram * cfg.suspNum) \div cfg.suspDen IN IF cfg.minSuspTick THEN Max(1, t) ELSE t
+\* exactly on a tick boundary the float quotient may come out one tick short (12 GB at 5 ticks/s: 0.6/0.2 = 2.9999999999999996)
+SuspTicksH(cfg, ram, cid, h) ==
+  LET t == SuspTicks(cfg, ram) IN
+  IF (ram * cfg.suspNum) % cfg.suspDen = 0 /\ t >= 2 /\ <<cid, t - 1>> \in h.slen THEN t - 1 ELSE t
 
 (* ---------------------------------------------------------------------------------- *)
 (* E phase for pool k                                                                  *)
 (* ---------------------------------------------------------------------------------- *)
 Usage(s, k) == SumSeq([j \in 1..Len(s.pools[k].active) |-> s.ctr[s.pools[k].active[j]].mem])
 
-RECURSIVE ApplySuspends(_, _, _, _, _)
-ApplySuspends(cfg, wl, s, k, sus) ==
+RECURSIVE ApplySuspends(_, _, _, _, _, _)
+ApplySuspends(cfg, wl, s, k, sus, h) ==
   IF sus = <<>> \/ s.crash # "" THEN s
   ELSE LET cid == Head(sus).cid IN
        IF cid \notin Range(s.pools[k].active) THEN CrashWith(s, "suspend_unknown")
@@ -158,10 +163,10 @@ ApplySuspends(cfg, wl, s, k, sus) ==
                 s1 == TransSeq(wl, s, SubSeq(c.ops, c.idx + 1, Len(c.ops)), "suspending")
             IN IF s1.crash # "" THEN s1
                ELSE ApplySuspends(cfg, wl,
-                      [s1 EXCEPT !.ctr[cid].sleft = SuspTicks(cfg, c.ram),
-                                 !.ctr[cid].slen  = SuspTicks(cfg, c.ram),
+                      [s1 EXCEPT !.ctr[cid].sleft = SuspTicksH(cfg, c.ram, cid, h),
+                                 !.ctr[cid].slen  = SuspTicksH(cfg, c.ram, cid, h),
                                  !.pools[k].suspending = Append(@, cid),
-                                 !.pools[k].active = RemoveOne(@, cid)], k, Tail(sus))
+                                 !.pools[k].active = RemoveOne(@, cid)], k, Tail(sus), h)
 
 NewCtr(k, a) == [pool |-> k, ops |-> a.ops, cpu |-> a.cpu, ram |-> a.ram, idx |-> 0, seg |-> 0, i |-> 0,
                  mem |-> 0, can |-> FALSE, done |-> FALSE, err |-> "", sleft |-> -1, slen |-> -1, ticks |-> 0,
@@ -198,7 +203,7 @@ TickActive(cfg, wl, s, cids, h) ==
 \* E5 step 1: containers over their own limit (a frozen container; incl. the exact-equality band)
 OverOwn(cfg, wl, s, cid, h) ==
   LET c == s.ctr[cid] IN
-  ~c.done /\ (c.mem > c.ram \/ (c.mem = c.ram /\ c.seg > 0 /\ cid \in h.oom
+  ~c.done /\ (c.mem > c.ram \/ (c.mem = c.ram /\ c.seg > 0 /\ cid \in h.own
                                 /\ Banded(cfg, wl, c.ops[c.idx + 1], c.seg, c.i, c.cpu)))
 RECURSIVE KillOwn(_, _, _, _, _)
 KillOwn(cfg, wl, s, cids, h) ==
@@ -217,7 +222,7 @@ RECURSIVE SortByScore(_, _, _)
 SortByScore(s, todo, acc) == IF todo = <<>> THEN acc ELSE SortByScore(s, Tail(todo), InsertByScore(s, acc, Head(todo)))
 KillOrder(s, k) == SortByScore(s, Candidates(s, k), <<>>)
 
-OverCap(cfg, s, k, next, h) == s.pools[k].cons > cfg.ramcap \/ (s.pools[k].cons = cfg.ramcap /\ next \in h.oom)
+OverCap(cfg, s, k, next, h) == s.pools[k].cons > cfg.ramcap \/ (s.pools[k].cons = cfg.ramcap /\ next \in h.pool)
 RECURSIVE KillLoop(_, _, _, _, _, _)
 KillLoop(cfg, wl, s, k, cands, h) ==
   IF cands = <<>> \/ s.crash # "" \/ ~OverCap(cfg, s, k, Head(cands), h) THEN s
@@ -250,7 +255,7 @@ PoolTick(cfg, wl, s, k, sus, as, h) ==
       notcan == \E j \in 1..Len(ps) : ps[j].cid \in Range(s.pools[k].active) /\ ~s.ctr[ps[j].cid].can
       s1a == IF badsus THEN CrashWith(s, "suspend_unknown")
              ELSE IF notcan THEN CrashWith(s, "suspend_not_boundary")
-             ELSE ApplySuspends(cfg, wl, s, k, ps)
+             ELSE ApplySuspends(cfg, wl, s, k, ps, h)
       \* documented: reported usage is the sum over RUNNING containers; pinned code keeps the suspended one's (D3)
       s1 == IF s1a.crash = "" /\ ps # <<>> /\ cfg.reconcileOnSuspend THEN [s1a EXCEPT !.pools[k].cons = Usage(s1a, k)] ELSE s1a
       \* E2: verify the batch as a whole, then create containers
